@@ -1,0 +1,232 @@
+//go:build verif
+
+package types
+
+// Contracts for the deductive checker in /verif (comment-only; compiled only with -tags verif).
+
+/*@
+// ------------------------------------------------------------------ C07 layer 1: pure fee arithmetic
+// No function below has a `modifies` clause: the #frame obligations prove that every pre-existing *big.Int,
+// *sdkmath.Int and tx object (in particular the stored tx fields) keeps its value.
+
+// effectiveGasPrice = min(tipCap + baseFee, feeCap); the result is a new object or feeCap itself
+func EffectiveGasPrice
+    requires nonnil: baseFee != nil && feeCap != nil && tipCap != nil
+    ensures value: result != nil && *result == imin(*tipCap + *baseFee, *feeCap)
+    ensures alias: fresh(result) || result == feeCap
+
+func fee
+    requires nonnil: gasPrice != nil
+    ensures value: result != nil && *result == *gasPrice * gas
+    ensures fresh_result: fresh(result)
+
+// cost = fee + value, a nil value counts as zero (then the fee object itself is returned)
+func cost
+    requires nonnil: fee != nil
+    ensures value: result != nil && *result == *fee + ite(value != nil, *value, 0)
+    ensures alias: ite(value != nil, fresh(result), result == fee)
+
+// ---- LegacyTx: gas price, tip cap and fee cap are all the GasPrice field; the base fee is ignored
+func (*LegacyTx).GetGasPrice
+    requires nonnil: tx != nil
+    ensures nil_price: tx.GasPrice == nil ==> result == nil
+    ensures value: tx.GasPrice != nil ==> result != nil && fresh(result) && *result == *tx.GasPrice
+func (*LegacyTx).GetGasTipCap
+    requires nonnil: tx != nil
+    ensures nil_price: tx.GasPrice == nil ==> result == nil
+    ensures value: tx.GasPrice != nil ==> result != nil && fresh(result) && *result == *tx.GasPrice
+func (*LegacyTx).GetGasFeeCap
+    requires nonnil: tx != nil
+    ensures nil_price: tx.GasPrice == nil ==> result == nil
+    ensures value: tx.GasPrice != nil ==> result != nil && fresh(result) && *result == *tx.GasPrice
+func (*LegacyTx).GetValue
+    requires nonnil: tx != nil
+    ensures nil_amount: tx.Amount == nil ==> result == nil
+    ensures value: tx.Amount != nil ==> result != nil && fresh(result) && *result == *tx.Amount
+func (*LegacyTx).GetGas
+    requires nonnil: tx != nil
+    ensures value: result == tx.GasLimit
+// precondition GasPrice != nil: established by Validate() (nil gas price is rejected)
+func (LegacyTx).Fee
+    requires price: tx.GasPrice != nil
+    ensures value: result != nil && fresh(result) && *result == *tx.GasPrice * tx.GasLimit
+func (LegacyTx).Cost
+    requires price: tx.GasPrice != nil
+    ensures value: result != nil && fresh(result)
+            && *result == *tx.GasPrice * tx.GasLimit + ite(tx.Amount != nil, *tx.Amount, 0)
+func (LegacyTx).EffectiveGasPrice
+    ensures nil_price: tx.GasPrice == nil ==> result == nil
+    ensures value: tx.GasPrice != nil ==> result != nil && fresh(result) && *result == *tx.GasPrice
+func (LegacyTx).EffectiveFee
+    requires price: tx.GasPrice != nil
+    ensures value: result != nil && fresh(result) && *result == *tx.GasPrice * tx.GasLimit
+func (LegacyTx).EffectiveCost
+    requires price: tx.GasPrice != nil
+    ensures value: result != nil && fresh(result)
+            && *result == *tx.GasPrice * tx.GasLimit + ite(tx.Amount != nil, *tx.Amount, 0)
+
+// ---- AccessListTx: gas price, tip cap and fee cap are all the GasPrice field; the base fee is ignored
+func (*AccessListTx).GetGasPrice
+    requires nonnil: tx != nil
+    ensures nil_price: tx.GasPrice == nil ==> result == nil
+    ensures value: tx.GasPrice != nil ==> result != nil && fresh(result) && *result == *tx.GasPrice
+func (*AccessListTx).GetGasTipCap
+    requires nonnil: tx != nil
+    ensures nil_price: tx.GasPrice == nil ==> result == nil
+    ensures value: tx.GasPrice != nil ==> result != nil && fresh(result) && *result == *tx.GasPrice
+func (*AccessListTx).GetGasFeeCap
+    requires nonnil: tx != nil
+    ensures nil_price: tx.GasPrice == nil ==> result == nil
+    ensures value: tx.GasPrice != nil ==> result != nil && fresh(result) && *result == *tx.GasPrice
+func (*AccessListTx).GetValue
+    requires nonnil: tx != nil
+    ensures nil_amount: tx.Amount == nil ==> result == nil
+    ensures value: tx.Amount != nil ==> result != nil && fresh(result) && *result == *tx.Amount
+func (*AccessListTx).GetGas
+    requires nonnil: tx != nil
+    ensures value: result == tx.GasLimit
+// precondition GasPrice != nil: established by Validate() (nil gas price is rejected)
+func (AccessListTx).Fee
+    requires price: tx.GasPrice != nil
+    ensures value: result != nil && fresh(result) && *result == *tx.GasPrice * tx.GasLimit
+func (AccessListTx).Cost
+    requires price: tx.GasPrice != nil
+    ensures value: result != nil && fresh(result)
+            && *result == *tx.GasPrice * tx.GasLimit + ite(tx.Amount != nil, *tx.Amount, 0)
+func (AccessListTx).EffectiveGasPrice
+    ensures nil_price: tx.GasPrice == nil ==> result == nil
+    ensures value: tx.GasPrice != nil ==> result != nil && fresh(result) && *result == *tx.GasPrice
+func (AccessListTx).EffectiveFee
+    requires price: tx.GasPrice != nil
+    ensures value: result != nil && fresh(result) && *result == *tx.GasPrice * tx.GasLimit
+func (AccessListTx).EffectiveCost
+    requires price: tx.GasPrice != nil
+    ensures value: result != nil && fresh(result)
+            && *result == *tx.GasPrice * tx.GasLimit + ite(tx.Amount != nil, *tx.Amount, 0)
+
+// ---- DynamicFeeTx: gas price = fee cap; effective price = min(tip cap + base fee, fee cap)
+func (*DynamicFeeTx).GetGasTipCap
+    requires nonnil: tx != nil
+    ensures nil_cap: tx.GasTipCap == nil ==> result == nil
+    ensures value: tx.GasTipCap != nil ==> result != nil && fresh(result) && *result == *tx.GasTipCap
+func (*DynamicFeeTx).GetGasFeeCap
+    requires nonnil: tx != nil
+    ensures nil_cap: tx.GasFeeCap == nil ==> result == nil
+    ensures value: tx.GasFeeCap != nil ==> result != nil && fresh(result) && *result == *tx.GasFeeCap
+func (*DynamicFeeTx).GetGasPrice
+    requires nonnil: tx != nil
+    ensures nil_cap: tx.GasFeeCap == nil ==> result == nil
+    ensures value: tx.GasFeeCap != nil ==> result != nil && fresh(result) && *result == *tx.GasFeeCap
+func (*DynamicFeeTx).GetValue
+    requires nonnil: tx != nil
+    ensures nil_amount: tx.Amount == nil ==> result == nil
+    ensures value: tx.Amount != nil ==> result != nil && fresh(result) && *result == *tx.Amount
+func (*DynamicFeeTx).GetGas
+    requires nonnil: tx != nil
+    ensures value: result == tx.GasLimit
+// preconditions GasFeeCap/GasTipCap != nil: established by Validate(); baseFee != nil: see REPORT (London active)
+func (DynamicFeeTx).Fee
+    requires caps: tx.GasFeeCap != nil
+    ensures value: result != nil && fresh(result) && *result == *tx.GasFeeCap * tx.GasLimit
+func (DynamicFeeTx).Cost
+    requires caps: tx.GasFeeCap != nil
+    ensures value: result != nil && fresh(result)
+            && *result == *tx.GasFeeCap * tx.GasLimit + ite(tx.Amount != nil, *tx.Amount, 0)
+func (*DynamicFeeTx).EffectiveGasPrice
+    requires nonnil: tx != nil && baseFee != nil
+    requires caps: tx.GasFeeCap != nil && tx.GasTipCap != nil
+    ensures value: result != nil && fresh(result) && *result == imin(*tx.GasTipCap + *baseFee, *tx.GasFeeCap)
+func (DynamicFeeTx).EffectiveFee
+    requires nonnil: baseFee != nil
+    requires caps: tx.GasFeeCap != nil && tx.GasTipCap != nil
+    ensures value: result != nil && fresh(result)
+            && *result == imin(*tx.GasTipCap + *baseFee, *tx.GasFeeCap) * tx.GasLimit
+func (DynamicFeeTx).EffectiveCost
+    requires nonnil: baseFee != nil
+    requires caps: tx.GasFeeCap != nil && tx.GasTipCap != nil
+    ensures value: result != nil && fresh(result)
+            && *result == imin(*tx.GasTipCap + *baseFee, *tx.GasFeeCap) * tx.GasLimit + ite(tx.Amount != nil, *tx.Amount, 0)
+
+// ------------------------------------------------------------------ C07 layer 2: the TxData interface seen by x/evm/keeper
+// Interface-level contracts (calls through TxData are not dispatched to the implementations by the checker).
+// ASSUMED refinement, by inspection of the contracts proved above: for td = *LegacyTx / *AccessListTx:
+//   txd_gas = GasLimit, txd_feecap = txd_tipcap = *GasPrice, txd_dynamic = false, txd_wf = (GasPrice != nil);
+// for td = *DynamicFeeTx: txd_gas = GasLimit, txd_feecap = *GasFeeCap, txd_tipcap = *GasTipCap, txd_dynamic = true,
+//   txd_wf = (GasFeeCap != nil && GasTipCap != nil). txd_wf is what Validate() guarantees.
+alias TxData github.com/haqq-network/haqq/x/evm/types.TxData
+uf txd_feecap(td TxData) int
+uf txd_tipcap(td TxData) int
+uf txd_dynamic(td TxData) bool
+uf txd_wf(td TxData) bool
+// effective gas price of a transaction under base fee b (b is irrelevant for non-dynamic transactions)
+specfunc txd_effprice(td TxData, b int) int = ite(txd_dynamic(td), imin(txd_tipcap(td) + b, txd_feecap(td)), txd_feecap(td))
+
+func (TxData).GetGas
+    params td
+    pure as txd_gas
+func (TxData).GetTo
+    params td
+    pure as txd_to
+func (TxData).GetData
+    params td
+    pure as txd_data
+func (TxData).GetAccessList
+    params td
+    pure as txd_accesslist
+func (TxData).GetGasFeeCap
+    params td
+    requires nonnil: td != nil
+    ensures value: txd_wf(td) ==> result != nil && fresh(result) && *result == txd_feecap(td)
+func (TxData).EffectiveFee
+    params td, baseFee
+    requires nonnil: td != nil
+    requires wf: txd_wf(td) && (txd_dynamic(td) ==> baseFee != nil)
+    ensures value: result != nil && fresh(result)
+            && *result == txd_effprice(td, ite(baseFee != nil, *baseFee, 0)) * txd_gas(td)
+func (TxData).Fee
+    params td
+    requires nonnil: td != nil
+    requires wf: txd_wf(td)
+    ensures value: result != nil && fresh(result) && *result == txd_feecap(td) * txd_gas(td)
+func (TxData).TxType
+    params td
+    pure as txd_type
+// ASSUMED (by inspection of the three TxType methods, whose constant results are proved below)
+axiom txd_dynamic: forall td TxData :: txd_dynamic(td) == (txd_type(td) == 2)
+func (*LegacyTx).TxType
+    ensures result == 0
+func (*AccessListTx).TxType
+    ensures result == 1
+func (*DynamicFeeTx).TxType
+    ensures result == 2
+
+// ------------------------------------------------------------------ C07 layer 3: what the ante decorators read from a MsgEthereumTx
+// codec leaf (reads the cached value of a protobuf Any): deterministic in its argument
+alias Any github.com/cosmos/cosmos-sdk/codec/types.Any
+uf unpack_ok(a *Any) bool
+uf unpack_td(a *Any) TxData
+func UnpackTxData
+    trusted
+    ensures ok: (result.1 == nil) == unpack_ok(any)
+    ensures value: result.1 == nil ==> result.0 == unpack_td(any) && result.0 != nil
+func (*Params).GetChainConfig
+    inline
+func (*Params).GetEvmDenom
+    inline
+func (ChainConfig).EthereumConfig
+    params cc, chainID
+    pure as chaincfg_eth
+
+func (MsgEthereumTx).GetGas
+    ensures value: result == ite(unpack_ok(msg.Data), txd_gas(unpack_td(msg.Data)), 0)
+func (MsgEthereumTx).GetFee
+    requires wf: unpack_ok(msg.Data) ==> txd_wf(unpack_td(msg.Data))
+    ensures bad: !unpack_ok(msg.Data) ==> result == nil
+    ensures value: unpack_ok(msg.Data) ==> result != nil && fresh(result)
+            && *result == txd_feecap(unpack_td(msg.Data)) * txd_gas(unpack_td(msg.Data))
+func (MsgEthereumTx).GetEffectiveFee
+    requires wf: unpack_ok(msg.Data) ==> txd_wf(unpack_td(msg.Data)) && (txd_dynamic(unpack_td(msg.Data)) ==> baseFee != nil)
+    ensures bad: !unpack_ok(msg.Data) ==> result == nil
+    ensures value: unpack_ok(msg.Data) ==> result != nil && fresh(result)
+            && *result == txd_effprice(unpack_td(msg.Data), ite(baseFee != nil, *baseFee, 0)) * txd_gas(unpack_td(msg.Data))
+@*/
